@@ -6,7 +6,7 @@
 # kept as /verif/seeded/<Cxx>-<x>/.
 V=$(cd "$(dirname "$0")/.." && pwd)
 P=$1; X=$2
-O=/tmp/seed/out/$P
+O=${SEED_OUT:-/tmp/seed/out}/$P
 export GOFLAGS=-mod=mod GOPROXY=off GOSUMDB=off GOTOOLCHAIN=local
 W=$(mktemp -d /tmp/seedconfirm.XXXXXX)
 rmdir "$W"
@@ -26,7 +26,7 @@ cd /; cleanup
 echo "$P-$X:$res"
 case "$res" in
   " base=pass demo0=pass apply=ok suite1=pass demo1=fail")
-    D=$V/seeded/$P-$X; mkdir -p "$D"
+    D=$V/seeded/$P-${SEED_SUFFIX:-$X}; mkdir -p "$D"
     cp "$O/${X}_patch.diff" "$D/patch.diff"; cp "$O/${X}_demo_test.go" "$D/demo_test.go"
     python3 - "$O/${X}_meta.json" "$D/meta.json" "$P" <<'PY'
 import json,sys
